@@ -69,9 +69,16 @@ def call_source(s: Script, name: str, c: dict) -> str:
     if act == "sweep":
         f0, f1 = _freq(s, a[0], 0), _freq(s, a[1], 1)
         d, k = s.val(a[2]), s.val(a[3])
-        if kw:
+        # four spellings, chosen by the call's own arguments: all keywords, two / three / four positional arguments; a step
+        # count that is the documented default (10) is left out of the positional spellings
+        sel = (2 if kw else 0) + (a[2] // 10 + a[3]) % 2
+        if sel == 3:
             return f"{name}.sweep(start_hz={f0}, end_hz={f1}, duration_ms={d}, steps={k})"
-        return f"{name}.sweep({f0}, {f1}, duration_ms={d}, steps={k})"
+        if sel == 2:
+            return f"{name}.sweep({f0}, {f1}, duration_ms={d}, steps={k})"
+        if sel == 1:
+            return f"{name}.sweep({f0}, {f1}, {d})" if a[3] == 10 else f"{name}.sweep({f0}, {f1}, {d}, steps={k})"
+        return f"{name}.sweep({f0}, {f1}, {d})" if a[3] == 10 else f"{name}.sweep({f0}, {f1}, {d}, {k})"
     if act == "melody":
         m = c["m"]                    # the name of a tune is not case sensitive: "Siren", "SUCCESS", "Scale_C" name the same tunes
         m = [m, m.capitalize(), m.upper(), m.title()][(len(m) + (0 if a[0] == NONE else abs(int(a[0])))) % 4]
